@@ -282,6 +282,15 @@ func cmdCheck(args []string) int {
 				continue
 			}
 			o, rep := VerifyFunction(prog, fn, prog.Contracts[k], true)
+			// a sweep is about safety obligations only; functional contracts of swept functions belong to the property
+			// that lists the function
+			var so []*Obligation
+			for _, ob := range o {
+				if ob.Kind == "safe" {
+					so = append(so, ob)
+				}
+			}
+			o = so
 			obs = append(obs, o...)
 			reports = append(reports, rep)
 			sweepFns++
